@@ -149,8 +149,11 @@ def run(eng, rep, tier):
     from . import mirror
     fl = prog.method("ParseTree", "get_leftmost_derivation")
     fr = prog.method("ParseTree", "get_rightmost_derivation")
-    tl, why_l = mirror.update_table(fl.node)
-    tr, why_r = mirror.update_table(fr.node)
+    from .flow import helpers_of as _helpers_of
+    hl, fixl = mirror.delegate(fl.node, _helpers_of(prog, fl))
+    hr, fixr = mirror.delegate(fr.node, _helpers_of(prog, fr))
+    tl, why_l = mirror.update_table(hl, fixl) if hl is not None else mirror.update_table(fl.node)
+    tr, why_r = mirror.update_table(hr, fixr) if hr is not None else mirror.update_table(fr.node)
     if tl is None or tr is None:
         rep.error("R7", "C15.5", fl.qname, "derivation-siblings-agree",
                   "the son loop of a derivation listing is of a shape the rule cannot follow (%s)" % (why_l or why_r),
